@@ -157,7 +157,8 @@ def render_script(slots, script_slots=()):
             L.append("global_options([%s], lang='c')" % _r(s))
             exp[i] = {'kind': 'script-compile', 'opts': [s]}
         elif ctx == 'global_opt_str':
-            lst = [s, 'y' + s]
+            # (every third string holds ONE word only: quoting still has to be undone)
+            lst = [s, 'y' + s] if i % 3 else [s]
             L.append("global_options(%s, lang='c')" % _r(sh_render(lst, sl.get('style', 'single'))))
             exp[i] = {'kind': 'script-compile', 'opts': lst}
         elif ctx == 'global_link_opt':
@@ -170,7 +171,8 @@ def render_script(slots, script_slots=()):
         elif ctx in ('env_cflags', 'env_cppflags', 'env_ldflags', 'env_ldlibs'):
             var = {'env_cflags': 'CFLAGS', 'env_cppflags': 'CPPFLAGS',
                    'env_ldflags': 'LDFLAGS', 'env_ldlibs': 'LDLIBS'}[ctx]
-            lst = [s, 'z' + s]
+            # (every third string holds ONE word only: quoting still has to be undone)
+            lst = [s, 'z' + s] if i % 3 else [s]
             genv[var] = sh_render(lst, sl.get('style', 'single'))
             exp[i] = {'kind': 'script-compile' if var in ('CFLAGS', 'CPPFLAGS')
                       else 'script-link', 'opts': lst}
@@ -284,7 +286,8 @@ def render_script(slots, script_slots=()):
             exp[i] = {'kind': 'compile', 'opts': [s], 'out': 'obj%d.o' % i}
         elif ctx == 'compile_opt_str':
             need_src = True
-            lst = [s, 'w' + s]
+            # (every third string holds ONE word only: quoting still has to be undone)
+            lst = [s, 'w' + s] if i % 3 else [s]
             L.append("t%d = object_file('obj%d', file='s.c', options=%s)"
                      % (i, i, _r(sh_render(lst, sl.get('style', 'single')))))
             defaults.append('t%d' % i)
@@ -347,7 +350,8 @@ def render_script(slots, script_slots=()):
             exp[i] = {'kind': 'link', 'opts': ['-l' + s], 'out': 'ex%d' % i}
         elif ctx == 'link_opt_str':
             need_src = True
-            lst = [s, 'v' + s]
+            # (every third string holds ONE word only: quoting still has to be undone)
+            lst = [s, 'v' + s] if i % 3 else [s]
             L.append("t%d = executable('ex%d', files=[shared_obj], link_options=%s)"
                      % (i, i, _r(sh_render(lst, sl.get('style', 'single')))))
             defaults.append('t%d' % i)
@@ -355,7 +359,8 @@ def render_script(slots, script_slots=()):
             exp[i] = {'kind': 'link', 'opts': lst, 'out': 'ex%d' % i}
         elif ctx == 'lib_opt_str':
             need_src = True
-            lst = [s, 'u' + s]
+            # (every third string holds ONE word only: quoting still has to be undone)
+            lst = [s, 'u' + s] if i % 3 else [s]
             L.append("static_library('lib%d', files=[shared_obj], link_options=%s)"
                      % (i, _r(sh_render(lst, sl.get('style', 'single')))))
             have_default = True
